@@ -130,8 +130,8 @@ class C03(Check):
                 cfg['input'] = None
             if cfg['input']:
                 cfg['input']['kind'] = 'smooth'
-            if stratum in ('S-torch', 'S-fortran'):
-                cfg['input'] = None     # the torch interp helper (nearest neighbour, reconnaissance R6) is C08's subject
+            if stratum in ('S-fortran',):
+                cfg['input'] = None     # the fortran interp helper (nearest neighbour, reconnaissance R6) is C08's subject
         if stratum == 'S-fault':
             per = 2 if solver == 'heun' else 1
             cfg['fault_at'] = rng.randint(0, max(0, steps * per - 1))
